@@ -265,20 +265,24 @@ class Spec(EvalableModel):
                 c = c.calculate_area(models)
                 orig.area = c.area
                 orig.total_area = c.area * global_fanout
+                orig._costs_calculated = orig._costs_calculated | {"area"}
             if energy:
                 c = c.calculate_action_energy(models)
                 for a in c.actions:
                     orig_action = orig.actions[a.name]
                     orig_action.energy = a.energy
+                    orig_action._costs_calculated = a._costs_calculated
             if throughput:
                 c = c.calculate_action_throughput(models)
                 for a in c.actions:
                     orig_action = orig.actions[a.name]
                     orig_action.throughput = a.throughput
+                    orig_action._costs_calculated = a._costs_calculated
             if leak:
                 c = c.calculate_leak_power(models)
                 orig.leak_power = c.leak_power
                 orig.total_leak_power = c.leak_power * global_fanout
+                orig._costs_calculated = orig._costs_calculated | {"leak_power"}
             orig.component_modeling_log = prev_log + c.component_modeling_log
             orig.component_model = c.component_model
 
